@@ -73,7 +73,7 @@ def names():
 # ---- trees ---------------------------------------------------------------------------------
 def trees(max_files=12, max_depth=3, content=None, min_files=1):
     """Nested dict name -> content-string | subtree; every directory non-empty."""
-    content = content or contents()
+    content = contents() if content is None else content
 
     @st.composite
     def _tree(draw, depth, budget):
